@@ -425,7 +425,14 @@ def main(tier):
     # replayer controls: wrong expected values / wrong rotation / mutant implementations must be flagged
     cand = [i for i, c in enumerate(cases) if c["exact"] and c["r"] > 24 and not tensors[c["t"]]["hexTie"] and _finite(outs[i])]
     if not cand:
-        raise MachineryError("no exact case suitable for the replayer controls")
+        # every exact case in a rotated frame came back raised / non-finite: that is itself the verdict (the controls
+        # below are built from the implementation's output and cannot be constructed)
+        k = next(i for i, c in enumerate(cases) if c["exact"] and c["r"] > 24)
+        chk.violation(dict(level="exact", clause="not-finite", cls="every-rotated-exact-case"),
+                      f"elasticity_components returned no finite result for any exact case in a rotated frame (first: {outs[k].get('raised') or 'non-finite output'})",
+                      dict(kind="exact", case=cases[k]))
+        chk.sample(dict(kind="exact-evaluation (rejected)", event=events[0]))
+        return chk.finish(rule="exact cases replayed; run stopped because no rotated exact case produced a finite result", exhaustive=False)
     i0 = cand[len(cand) // 2]
     c0 = cases[i0]
     exp0 = meta[i0]["expected"]
